@@ -771,6 +771,11 @@ func checkC17(c *Ctx, r *Report) {
 					nWr++
 					r.Check(isConfigEncoding(unconv(a[1])), "C17.R6", fnKey(w)+": the config file receives the encoding of the live Config", c.InstrPos(call), "json.Encoder.Encode(*Config) into the temp file", "what is encoded into the config file is not the Config value itself")
 				}
+			default:
+				if enc, _, isEnc := encodesIntoParam(call, fromTmpV); isEnc {
+					nWr++
+					r.Check(isConfigEncoding(unconv(callArgs(enc)[1])), "C17.R6", fnKey(w)+": the config file receives the encoding of the live Config", c.InstrPos(call), "a helper encodes the Config value into the temp file it is handed", "what the helper encodes into the config file is not the Config value itself")
+				}
 			case "(*os.File).Write", "(*os.File).WriteString", "io.WriteString":
 				if len(a) >= 2 && fromTmpV(a[0]) {
 					nWr++
@@ -981,8 +986,18 @@ func checkC18(c *Ctx, r *Report) {
 					case configPkg + ".NewDefault":
 						has["fresh"] = true
 					case "(*" + configPkg + ".Config).verify":
-						if fc, ok := resolveVal(callArgs(c2)[0]).(*ssa.Call); ok && calleeName(fc) == configPkg+".NewDefault" {
+						rv := resolveVal(callArgs(c2)[0])
+						if fc, ok := rv.(*ssa.Call); ok && calleeName(fc) == configPkg+".NewDefault" {
 							verifyOnFresh = true
+						}
+						// the fresh configuration may be handed in by the caller (dryRun(cfg, NewDefault(), updates))
+						if prm, isP := rv.(*ssa.Parameter); isP && g == h {
+							if a, _, okA := paramArg(prm, dctx{call}); okA {
+								if fc, ok := resolveVal(a).(*ssa.Call); ok && calleeName(fc) == configPkg+".NewDefault" {
+									verifyOnFresh = true
+									has["fresh"] = true
+								}
+							}
 						}
 					}
 				})
@@ -1308,6 +1323,39 @@ func checkC18(c *Ctx, r *Report) {
 		}
 		r.Check(ok, "C18.R2", key, c.Pos(f.Pos()), "refusal present ("+nd.why+")", "verify() accepts a "+nd.field+" the consumers cannot run with ("+nd.why+")")
 	}
+	// the two listeners are started in one process: a configuration in which they name the same address cannot run
+	for _, f := range c.FuncsNamed("(*" + configPkg + ".Config).verify") {
+		refused := false
+		for _, b := range f.Blocks {
+			iff, ok := b.Instrs[len(b.Instrs)-1].(*ssa.If)
+			if !ok {
+				continue
+			}
+			mentions := map[string]bool{}
+			derivesFromDeep(iff.Cond, nil, func(v ssa.Value, cx dctx) bool {
+				if _, pth := ctxFieldPath(v, cx); len(pth) >= 2 && pth[len(pth)-1] == "Listen" {
+					mentions[pth[len(pth)-2]] = true
+				}
+				return false
+			})
+			if !mentions["Proxy"] || !mentions["Webserver"] {
+				continue
+			}
+			for si := range b.Succs {
+				all, n := true, 0
+				for _, e := range walkFrom(pos{b.Succs[si], 0}, nil, isReturn, nil) {
+					n++
+					if vs := retVals(e.(*ssa.Return)); len(vs) != 1 || isNilConst(vs[0]) {
+						all = false
+					}
+				}
+				if all && n > 0 {
+					refused = true
+				}
+			}
+		}
+		r.Check(refused, "C18.R2", "Config.verify refuses two listeners on one address", c.Pos(f.Pos()), "a test over proxy.listen and webserver.listen leads to an error return", "verify() never compares proxy.listen with webserver.listen: both can be set to the same address (or the proxy to :8080, which covers the webserver's default localhost:8080), the update is accepted and saved, and the next start dies on the second bind")
+	}
 	// listen addresses are checked for what net.Listen needs (host:port, a port that exists), not only for being
 	// non-empty: "localhost" or "localhost:99999" can be saved but never started under
 	for _, who := range []string{"ProxyConfig", "WebserverConfig"} {
@@ -1468,6 +1516,11 @@ func checkC18(c *Ctx, r *Report) {
 					if len(a) > 0 && fromTmpV(a[0]) {
 						writes = append(writes, call)
 					}
+				default:
+					// a same-package helper that encodes into the writer it is handed (c.encodeIndented(f))
+					if _, _, isEnc := encodesIntoParam(call, fromTmpV); isEnc {
+						writes = append(writes, call)
+					}
 				}
 			})
 			errOf := func(call *ssa.Call) ssa.Value {
@@ -1545,6 +1598,16 @@ func checkC18(c *Ctx, r *Report) {
 			})
 		}
 		r.Floor("C18.R4", n, 1, "staging sites")
+		// ... and a key that is the tag of no field is not skipped: the dry run decodes the document with encoding/json,
+		// which also accepts other spellings of a key (letter case, Unicode folding), so a key this walk does not know
+		// may have been verified as a known one. With the "tag equals key" edges taken out of the walk, neither the next
+		// key nor a success return can be reached.
+		skipped, decided := unknownKeySkipped(f)
+		if !decided {
+			r.Undecided("C18.R4", "a key that names no setting fails the update", c.Pos(f.Pos()), "the walk over the update document is not a range over the map with a tag comparison per field: not decided")
+		} else {
+			r.Check(skipped == "", "C18.R4", "a key that names no setting fails the update", c.Pos(f.Pos()), "without a matching tag the walk can reach neither the next key nor a success return", "a key of the update document that matches no json tag is skipped ("+skipped+"): encoding/json folds `liſten` onto `listen` in the dry run, so an update can be verified with one value of a setting and staged with another — behind a command-line override an invalid value is accepted and saved, and the next start refuses the file")
+		}
 	}
 
 	// ---- R5
@@ -1932,6 +1995,13 @@ func checkC19(c *Ctx, r *Report) {
 			}
 			harg := unconv(call.Common().Args[1])
 			h := closureFn(harg) // a literal, a named function, or the literal a factory hands back
+			hParams := []*ssa.Parameter(nil)
+			if h != nil {
+				hParams = h.Params
+			}
+			if m, mps := funcValueBody(harg); m != nil && m != h {
+				h, hParams = m, mps // a method value (OnChange(j.onIntervalChanged)): the method, without its receiver
+			}
 			if h == nil {
 				r.Undecided("C19.R2", fnKey(f)+": OnChange handler", c.InstrPos(call), "handler is not a function literal")
 				return
@@ -1940,8 +2010,8 @@ func checkC19(c *Ctx, r *Report) {
 			_, pp := fieldPath(call.Common().Args[0])
 			key := fmt.Sprintf("%s: handler for %s", fnKey(h), strings.Join(pp, "."))
 			var bad []string
-			if len(h.Params) > 0 {
-				payload := h.Params[len(h.Params)-1]
+			if len(hParams) > 0 {
+				payload := hParams[len(hParams)-1]
 				uses := payloadUses(h, payload)
 				for _, u := range uses {
 					bad = append(bad, u+" in "+fnKey(h))
@@ -1963,6 +2033,13 @@ func checkC19(c *Ctx, r *Report) {
 					}
 					if strings.HasSuffix(n, "atomics.Value).Store") {
 						store = x
+					}
+					// the notification may have been moved into a helper that does nothing else of substance (p.announce()):
+					// its call site is where subscribers are fired
+					if h := helperBody(x); h != nil && fire == nil {
+						if findCall(h, "(*reservoir/utils/event.Event).Fire") != nil && findCall(h, "(*reservoir/utils/atomics.Value).Store") == nil {
+							fire = x
+						}
 					}
 				}
 			})
@@ -2556,4 +2633,230 @@ func deferredRollback(li *LockInfo, f *ssa.Function, setp, ver, per *ssa.Call) b
 		ok = good && nTrue > 0
 	})
 	return ok
+}
+
+// unknownKeySkipped: in the function that walks an update document (a range over a map whose keys are compared
+// with the json tags of the fields), can an iteration in which no tag equalled the key go on to the next key or to
+// a success return? Returns a description of how ("" if it cannot) and whether the shape was recognised.
+func unknownKeySkipped(f *ssa.Function) (string, bool) {
+	var next *ssa.Next
+	eachInstr(f, func(in ssa.Instruction) {
+		if nx, ok := in.(*ssa.Next); ok && !nx.IsString && next == nil {
+			if rg, ok := nx.Iter.(*ssa.Range); ok {
+				if _, isM := rg.X.Type().Underlying().(*types.Map); isM {
+					next = nx
+				}
+			}
+		}
+	})
+	if next == nil {
+		return "", false
+	}
+	keyV := extractOf(next, 1)
+	okV := extractOf(next, 0)
+	if keyV == nil || okV == nil {
+		return "", false
+	}
+	var body *ssa.BasicBlock
+	for _, u := range ifsOn(f, okV) {
+		if u.positive {
+			body = u.blk.Succs[0]
+		} else {
+			body = u.blk.Succs[1]
+		}
+	}
+	if body == nil {
+		return "", false
+	}
+	isTag := func(v ssa.Value) bool {
+		return derivesFrom(v, func(x ssa.Value) bool {
+			call, ok := x.(*ssa.Call)
+			if !ok {
+				return false
+			}
+			n := calleeName(call)
+			return strings.HasSuffix(n, "StructTag).Lookup") || strings.HasSuffix(n, "StructTag).Get")
+		})
+	}
+	fromKey := func(v ssa.Value) bool {
+		return derivesFrom(v, func(x ssa.Value) bool { return x == ssa.Value(keyV) })
+	}
+	type edge struct {
+		b  *ssa.BasicBlock
+		si int
+	}
+	pruned := map[edge]bool{}
+	nMatch := 0
+	for _, b := range f.Blocks {
+		iff, ok := b.Instrs[len(b.Instrs)-1].(*ssa.If)
+		if !ok {
+			continue
+		}
+		cv, positive := stripNot(iff.Cond)
+		switch x := cv.(type) {
+		case *ssa.BinOp:
+			if (x.Op == token.EQL || x.Op == token.NEQ) && ((isTag(x.X) && fromKey(x.Y)) || (isTag(x.Y) && fromKey(x.X))) {
+				eq := 0
+				if (x.Op == token.NEQ) == positive {
+					eq = 1
+				}
+				pruned[edge{b, eq}] = true
+				nMatch++
+			}
+		case *ssa.Extract:
+			// field, ok := fieldByJSONTag(val, key)
+			if call, isC := x.Tuple.(*ssa.Call); isC && isBoolType(x.Type()) {
+				if h := helperBody(call); h != nil {
+					usesTag, usesKey := false, false
+					eachCall(h, func(_ ssa.CallInstruction, n string) {
+						if strings.HasSuffix(n, "StructTag).Lookup") || strings.HasSuffix(n, "StructTag).Get") {
+							usesTag = true
+						}
+					})
+					for _, a := range callArgs(call) {
+						if fromKey(a) {
+							usesKey = true
+						}
+					}
+					if usesTag && usesKey {
+						hit := 0
+						if !positive {
+							hit = 1
+						}
+						pruned[edge{b, hit}] = true
+						nMatch++
+					}
+				}
+			}
+		}
+	}
+	if nMatch == 0 {
+		return "", false
+	}
+	// reachability from the loop body with the match edges out, bool merges evaluated over the live edges
+	for round := 0; round < 4; round++ {
+		reach := map[*ssa.BasicBlock]bool{}
+		var visit func(b *ssa.BasicBlock)
+		visit = func(b *ssa.BasicBlock) {
+			if reach[b] || b == next.Block() {
+				return
+			}
+			reach[b] = true
+			for si, sc := range b.Succs {
+				if !pruned[edge{b, si}] {
+					visit(sc)
+				}
+			}
+		}
+		visit(body)
+		liveEdge := func(from, to *ssa.BasicBlock) bool {
+			if !reach[from] {
+				return from == next.Block() || !from.Dominates(to) && false
+			}
+			for si, sc := range from.Succs {
+				if sc == to && !pruned[edge{from, si}] {
+					return true
+				}
+			}
+			return false
+		}
+		var phiConst func(v ssa.Value, d int) (bool, bool)
+		phiConst = func(v ssa.Value, d int) (bool, bool) {
+			if b, isC := constBool(v); isC {
+				return b, true
+			}
+			phi, isPhi := v.(*ssa.Phi)
+			if !isPhi || d > 4 {
+				return false, false
+			}
+			have, val := false, false
+			for i, e := range phi.Edges {
+				pred := phi.Block().Preds[i]
+				if !liveEdge(pred, phi.Block()) {
+					continue
+				}
+				if e == ssa.Value(phi) {
+					continue
+				}
+				b, okC := phiConst(e, d+1)
+				if !okC {
+					return false, false
+				}
+				if have && b != val {
+					return false, false
+				}
+				have, val = true, b
+			}
+			return val, have
+		}
+		changed := false
+		for b := range reach {
+			iff, ok := b.Instrs[len(b.Instrs)-1].(*ssa.If)
+			if !ok {
+				continue
+			}
+			cv, positive := stripNot(iff.Cond)
+			if val, known := phiConst(cv, 0); known {
+				dead := 1
+				if val != positive {
+					dead = 0
+				}
+				// cond == (val == positive): the edge taken is 0 when that is true
+				if !pruned[edge{b, dead}] {
+					pruned[edge{b, dead}] = true
+					changed = true
+				}
+			}
+		}
+		if !changed {
+			// verdict on this fixpoint
+			for _, p := range next.Block().Preds {
+				for si, sc := range p.Succs {
+					if sc == next.Block() && reach[p] && !pruned[edge{p, si}] {
+						return "the walk goes on to the next key", true
+					}
+				}
+			}
+			for b := range reach {
+				if ret, isRet := b.Instrs[len(b.Instrs)-1].(*ssa.Return); isRet && !isRecoverReturn(ret) {
+					if vals := retVals(ret); len(vals) > 0 && isNilConst(vals[len(vals)-1]) {
+						return "the walk returns success", true
+					}
+				}
+			}
+			return "", true
+		}
+	}
+	return "", false
+}
+
+// encodesIntoParam: call is a call of a same-package helper that is handed a writer satisfying isTarget and, on every
+// way through, encodes with a json.Encoder made on that parameter; returns the Encode call inside the helper.
+func encodesIntoParam(call *ssa.Call, isTarget func(ssa.Value) bool) (enc *ssa.Call, h *ssa.Function, ok bool) {
+	h = helperBody(call)
+	if h == nil {
+		return nil, nil, false
+	}
+	for i, a := range callArgs(call) {
+		if i >= len(h.Params) || !isTarget(unconv(a)) {
+			continue
+		}
+		prm := h.Params[i]
+		eachInstr(h, func(in ssa.Instruction) {
+			ec, isC := in.(*ssa.Call)
+			if !isC || calleeName(ec) != "(*encoding/json.Encoder).Encode" {
+				return
+			}
+			if mk, isMk := resolveVal(callArgs(ec)[0]).(*ssa.Call); isMk && calleeName(mk) == "encoding/json.NewEncoder" && resolveVal(unconv(callArgs(mk)[0])) == ssa.Value(prm) {
+				enc = ec
+			}
+		})
+	}
+	if enc == nil {
+		return nil, nil, false
+	}
+	if len(exitsFromEntryAvoiding(h, isInstr(enc), nil)) > 0 {
+		return nil, nil, false
+	}
+	return enc, h, true
 }
